@@ -4,6 +4,7 @@ package verifstack
 
 import (
 	"bytes"
+	"context"
 	"errors"
 	"io"
 	"path"
@@ -273,4 +274,74 @@ func VerifH10c() {
 	}
 	w.checkReads("H10c.after")
 	nd.Reach("H10c.end")
+}
+
+// cancellingReader cancels the caller's context before its at-th Read and goes on reading.
+type cancellingReader struct {
+	r      io.Reader
+	n, at  int
+	cancel func()
+}
+
+func (c *cancellingReader) Read(p []byte) (int, error) {
+	if c.n == c.at {
+		c.cancel()
+	}
+	c.n++
+	return c.r.Read(p)
+}
+
+// VerifH10d: the source reader of SetReader fails, or the caller's context is cancelled mid-upload,
+// through the gRPC client. The client must not
+// complete the upload with the bytes sent so far: SetReader returns an error and the key keeps
+// the value it had before. (Sources of 1-3 pieces around the chunk size of the stream writer, so
+// that the failure falls before the first chunk, between chunks, or with a tail buffered.)
+func VerifH10d() {
+	nd.SetPreemptionBound(0)
+	concreteCounter = true
+	cfg := stdConfig()
+	w := &world{cfg: cfg, keys: []string{"a"}, txs: []*rtx{nil}, vlen: 1}
+	var lc *loopClient
+	w.d, w.c, lc = openExternal(cfg)
+	if nd.Choice("pre-value", 2) == 1 {
+		nd.Assert(w.doSet(0, "a", w.freshVal(), 0) == nil, "H10d.pre")
+	}
+	np := 1 + nd.Choice("pieces", 3)
+	var pieces [][]byte
+	var whole []byte
+	for i := 0; i < np; i++ {
+		pc := nd.Bytes("piece", []int{1, 2047, 2049}[nd.Choice("piece-len", 3)])
+		pieces = append(pieces, pc)
+		whole = append(whole, pc...)
+	}
+	// the fault: none | the source fails before piece i | the caller's context is cancelled before
+	// piece i is read (i == np: before the end of the source is seen), the source itself goes on
+	fault := nd.Choice("fault", 3)
+	src := &pieceReader{pieces: pieces, failAt: -1}
+	cctx, cancel := context.WithCancel(ctx)
+	var rd io.Reader = src
+	switch fault {
+	case 1:
+		src.failAt = nd.Choice("source-fails-before-piece", np+1)
+	case 2:
+		rd = &cancellingReader{r: src, at: nd.Choice("cancelled-before-read", np+1), cancel: cancel}
+	}
+	err := w.d.SetReader(cctx, "a", rd)
+	cancel()
+	lc.finishAbandoned()
+	if fault == 1 {
+		nd.Assert(err != nil, "H10d.source-failure-reported")
+	}
+	if fault == 0 {
+		nd.Assert(err == nil, "H10d.fault-free-success")
+	}
+	if err != nil {
+		nd.Reach("H10d.failure")
+	} else {
+		// reported successful => complete
+		w.vs = append(w.vs, rver{key: "a", val: whole, owner: 0, pos: w.tick()})
+		nd.Reach("H10d.success")
+	}
+	w.checkReads("H10d.after")
+	nd.Reach("H10d.end")
 }
